@@ -98,6 +98,43 @@ def s9_every_dir_every_time(chk: Check, proj: Project) -> None:
     chk.ob("S9", "finders:no-table-of-compiled-patterns", tables[0].loc if tables else fmod.loc(fmod.tree), not tables,
            "the finder keeps no module-level table: the allow / forbid patterns are read from the settings for every file" if not tables else
            f"`{short(tables[0].stmt())}` keeps compiled patterns in module-level `{tables[0].g.name}` under a key that forgets whether an entry was a suffix or a regex, and its flags: a later configuration with the same pattern TEXT is judged with the earlier one's patterns (data.json exposed under allowed=['.js'] after re.compile('.js') was used)")
+    # (prefix, path) entries: the loader, the finder's __init__ and its check() unpack the same sequence types as Django's
+    # own FileSystemFinder (list AND tuple)
+    import importlib.util as _ilu
+
+    def _pair_types(fn_: ast.AST) -> List[Tuple[Set[str], ast.AST]]:
+        out_ = []
+        for c_ in ast.walk(fn_):
+            if isinstance(c_, ast.Call) and norm(c_.func) == "isinstance" and len(c_.args) == 2:
+                ts = {x.id for x in ast.walk(c_.args[1]) if isinstance(x, ast.Name)}
+                if ts & {"list", "tuple"} and ts <= {"list", "tuple"}:
+                    out_.append((ts, c_))
+        return out_
+
+    dj_spec = _ilu.find_spec("django.contrib.staticfiles.finders")
+    dj_types: Set[str] = set()
+    if dj_spec and dj_spec.origin:
+        djt = ast.parse(open(dj_spec.origin).read())
+        fsf = next((c_ for c_ in djt.body if isinstance(c_, ast.ClassDef) and c_.name == "FileSystemFinder"), None)
+        if fsf is not None:
+            for ts, _c in _pair_types(fsf):
+                dj_types |= ts
+    if dj_types != {"list", "tuple"}:
+        raise AnalysisError(f"django's FileSystemFinder accepts {sorted(dj_types)} as (prefix, path) entries - expected list and tuple")
+    sites = []
+    for mod_, qn in (("util.loader", "get_component_dirs"), ("finders", "ComponentsFileSystemFinder.__init__"), ("finders", "ComponentsFileSystemFinder.check")):
+        r_ = proj.try_func(mod_, qn)
+        if r_ is None:
+            continue
+        for ts, c_ in _pair_types(r_[1]):
+            # only tests of a loop variable / single entry (not of the whole setting, which check() also tests)
+            if isinstance(c_.args[0], ast.Name) and any(isinstance(lp_, ast.For) and any(isinstance(t_, ast.Name) and t_.id == c_.args[0].id for t_ in ast.walk(lp_.target)) for lp_ in ast.walk(r_[1])):
+                sites.append((r_[0], qn, ts, c_))
+    chk.floor("S9-pair-forms", len(sites), 3)
+    for mod2, qn, ts, c_ in sites:
+        chk.ob("S9", f"{mod2.name.replace('django_components.', '')}:{qn.split('.')[-1]}:{short(c_, 50)}:pair-forms-as-django", mod2.loc(c_), ts == dj_types,
+               "a (prefix, path) entry may be a list or a tuple, as in Django's FileSystemFinder" if ts == dj_types else
+               f"`{short(c_)}` unpacks a (prefix, path) entry only when it is a {sorted(ts)[0]}: the finder's own check(), its __init__ and Django accept {sorted(dj_types)} - a directory written as `['ui', '/abs/dir']` fails in Path(), is skipped with a warning, and none of its allowed files is exposed by find() / list()")
     # every directory get_component_dirs() returns becomes a finder location (the only test allowed is the exact-duplicate test)
     im, initf = proj.func("finders", "ComponentsFileSystemFinder.__init__")
     chk.analysed(fkey(im, initf))
